@@ -66,6 +66,9 @@ func runProperty(pc *PropCfg, repo, verif, tier string, update bool) *propResult
 		return r
 	}
 	e.trackAlloc = pc.TrackAlloc
+	for _, n := range e.aliasNotes {
+		r.assumptions[n] = true
+	}
 	dir, _ := os.MkdirTemp("", "govc.")
 	defer os.RemoveAll(dir)
 	cfg := &solveCfg{tier: tier, dir: dir, quickT: 10, slowT: 40, workers: 14}
@@ -85,6 +88,7 @@ func runProperty(pc *PropCfg, repo, verif, tier string, update bool) *propResult
 	// a check must verify every body whose contract it relies on, or a change in that body would go unseen
 	work := append([]string{}, pc.Functions...)
 	seenFn := map[string]bool{}
+	verified := map[string]bool{}
 	for len(work) > 0 {
 		fk := work[0]
 		work = work[1:]
@@ -100,6 +104,9 @@ func runProperty(pc *PropCfg, repo, verif, tier string, update bool) *propResult
 			}
 		}
 		r.funcs = append(r.funcs, fk)
+		if err == nil {
+			verified[fk] = true
+		}
 		for _, o := range u.obls {
 			jobs = append(jobs, job{u, o})
 		}
@@ -251,6 +258,12 @@ func runProperty(pc *PropCfg, repo, verif, tier string, update bool) *propResult
 		// only contract clauses are tracked (post / inv / dec / lemma): the ordinals of safety and call-site
 		// obligations shift with harmless edits
 		if !seen[n] && (strings.Contains(n, "#post.") || strings.Contains(n, "#inv.") || strings.Contains(n, "#dec.") || strings.HasPrefix(n, "lemma.")) {
+			// a function that is no longer reached through a contract call (its caller now does the work
+			// itself, or calls something else) takes its obligations with it: that is not a regression. The
+			// functions the property names are always verified, and reported above if they cannot be.
+			if i := strings.Index(n, "#"); i > 0 && !strings.HasPrefix(n, "lemma.") && !verified[n[:i]] {
+				continue
+			}
 			missing = append(missing, n)
 		}
 	}
